@@ -21,6 +21,8 @@ pub use sync_iterators::{
 
 use core::ptr;
 pub use iterator_trait::MRBIterator;
+#[cfg(feature = "verif-hooks")]
+pub(crate) use iterator_trait::PrivateMRBIterator;
 
 pub(crate) use iterator_trait::iter_macros::*;
 
